@@ -344,6 +344,7 @@ public:
       c.source_type = (int)r.below(6);
       c.feedback = c.source_type == 3 && r.chance(0.7);
       c.source_log = (c.source_type == 2 || c.source_type >= 4) && r.chance(0.5);
+      c.fast_sources = (c.source_type == 2 || c.source_type >= 4) && r.chance(0.5);
       caproni_box = c.source_type == 5;
       c.snap_mode = (int)r.below(3);
       c.first_snapshot = r.chance(0.2) ? 3 : 0;
@@ -428,6 +429,7 @@ public:
       c.source_type = (int)r.below(5);
       c.feedback = c.source_type == 3 && r.chance(0.5);
       c.source_log = (c.source_type == 2 || c.source_type == 4) && r.chance(0.5);
+      c.fast_sources = (c.source_type == 2 || c.source_type == 4) && r.chance(0.5);
       c.backups = (int)r.range(0, 3);
       c.threads = std::min(c.threads, 6);
       c.snap_mode = (int)r.below(3);
@@ -438,6 +440,8 @@ public:
       c.fields_mask = r.chance(0.4) ? (int)r.below(256) : 0;
       c.copy_level = c.radiation ? (int)r.below(3) : 0;
       c.task_plot_rhd = c.radiation && r.chance(0.15) ? (int)r.range(1, 2) : 0;
+      if (c.periodic(0) || c.periodic(1) || c.periodic(2))
+        c.task_plot_rhd = 0; // see Cfg::task_plot_rhd
       const char *vm = getenv("VERIF_MODE");
       if (vm && std::string(vm) == "valgrind") {
         // memcheck part: about 50x slower, and without UBSan the known
@@ -615,6 +619,10 @@ public:
     } else if (!finished && tight && (IL.pool_exhausted || IL.pools_full())) {
       out.notes.push_back("run with reduced pools ran out of buffer or task "
                           "slots under this schedule: inconclusive");
+    } else if (!finished && c.task_plot_rhd > 0) {
+      out.notes.push_back("run in task plot mode did not finish (the task pool "
+                          "holds every task of the step in this mode and may "
+                          "have run out): inconclusive");
     } else if (!finished) {
       vclass = "nontermination";
       message = sfmt("hydro step %d did not end within the step budget (fair "
